@@ -366,3 +366,120 @@ Example restore_voters_fresh_somewhere :
   | inr _ => false
   end = true.
 Proof. vm_compute. reflexivity. Qed.
+
+Section Segs.
+Variables mi mb li : N.
+Variable rest : list cc_single.
+
+Lemma seg_remove : forall ids c p,
+  (forall id, In id ids -> id <> 0 -> smem (c_outgoing c) id = true /\ has_progress p id = true) ->
+  exists c1, cc_apply mi mb li c p (map (mkCCS CCRemoveNode) ids ++ rest) = cc_apply mi mb li c1 p rest /\
+    c_outgoing c1 = c_outgoing c /\
+    (forall x, In x (c_voters c1) -> In x (c_voters c) /\ (In x ids -> x = 0)).
+Proof.
+  induction ids as [|id ids IH]; intros c p HP.
+  - exists c. cbn. intuition auto.
+  - cbn [map app cc_apply ccs_node ccs_type].
+    destruct (N.eqb_spec id 0) as [Z|NZ].
+    + destruct (IH c p) as (c1 & E & O & V); [intros i Hi; apply HP; right; exact Hi|].
+      exists c1. split; [exact E|]. split; [exact O|].
+      intros x Hx. destruct (V x Hx) as [A B]. split; [exact A|]. intros [->|Hi]; auto.
+    + destruct (HP id (or_introl eq_refl) NZ) as [SM HPi].
+      unfold cc_remove. rewrite HPi, SM. cbn [negb].
+      match goal with |- context [cc_apply mi mb li ?c' p _] => destruct (IH c' p) as (c1 & E & O & V) end.
+      { cbn. intros i Hi Hn. apply HP; [right; exact Hi|exact Hn]. }
+      exists c1. split; [exact E|]. split; [rewrite O; reflexivity|].
+      intros x Hx. destruct (V x Hx) as [A B]. cbn in A. apply sremove_In in A. destruct A as [A NE].
+      split; [exact A|]. intros [->|Hi]; [congruence|auto].
+Qed.
+
+Lemma seg_add : forall ids c p,
+  exists c1 p1, cc_apply mi mb li c p (map (mkCCS CCAddNode) ids ++ rest) = cc_apply mi mb li c1 p1 rest /\
+    (forall x, In x (c_voters c1) <-> (In x ids /\ x <> 0) \/ In x (c_voters c)).
+Proof.
+  induction ids as [|id ids IH]; intros c p.
+  - exists c, p. cbn. intuition auto.
+  - cbn [map app cc_apply ccs_node ccs_type].
+    destruct (N.eqb_spec id 0) as [Z|NZ].
+    + destruct (IH c p) as (c1 & p1 & E & V). exists c1, p1. split; [exact E|].
+      intros x. rewrite V. cbn [In]. intuition (subst; auto). congruence.
+    + destruct (make_voter mi mb li c p id) as [c' p'] eqn:MV.
+      destruct (IH c' p') as (c1 & p1 & E & V). exists c1, p1. split; [exact E|].
+      intros x. rewrite V.
+      assert (VV : forall y, In y (c_voters c') <-> y = id \/ In y (c_voters c)).
+      { intros y. unfold make_voter, init_progress in MV. destruct (alookup p id); inversion MV; subst; cbn;
+          rewrite sinsert_In; tauto. }
+      rewrite VV. cbn [In]. intuition (subst; auto).
+Qed.
+
+Lemma seg_learner : forall ids c p,
+  exists c1 p1, cc_apply mi mb li c p (map (mkCCS CCAddLearnerNode) ids ++ rest) = cc_apply mi mb li c1 p1 rest /\
+    (forall x, (In x (c_voters c1) -> In x (c_voters c)) /\ (~ In x ids -> In x (c_voters c) -> In x (c_voters c1))).
+Proof.
+  induction ids as [|id ids IH]; intros c p.
+  - exists c, p. cbn. intuition auto.
+  - cbn [map app cc_apply ccs_node ccs_type].
+    destruct (N.eqb_spec id 0) as [Z|NZ].
+    + destruct (IH c p) as (c1 & p1 & E & V). exists c1, p1. split; [exact E|].
+      intros x. destruct (V x) as [A B]. cbn [In]. intuition auto.
+    + destruct (make_learner mi mb li c p id) as [c' p'] eqn:ML.
+      destruct (IH c' p') as (c1 & p1 & E & V). exists c1, p1. split; [exact E|].
+      intros x. destruct (V x) as [A B]. destruct (make_learner_voters _ _ _ _ _ _ _ _ ML x) as [C D].
+      cbn [In]. intuition auto.
+Qed.
+End Segs.
+
+(* Restore of a joint ConfState into a fresh tracker: the incoming voter set of the result is
+   the ConfState's Voters (id 0 skipped), provided no voter is also listed as a learner *)
+Theorem restore_voters_joint_fresh mi mb li cs c p :
+  cc_restore (make_tracker mi mb) li cs = inl (c, p) -> cs_voters_outgoing cs <> [] ->
+  (forall x, In x (cs_voters cs) -> ~ In x (cs_learners cs) /\ ~ In x (cs_learners_next cs)) ->
+  forall x, In x (c_voters c) <-> In x (cs_voters cs) /\ x <> 0.
+Proof.
+  unfold cc_restore, to_cc_single. intros H NO D x.
+  destruct (map (mkCCS CCAddNode) (cs_voters_outgoing cs)) as [|o os] eqn:EO.
+  { destruct (cs_voters_outgoing cs); [congruence|discriminate]. }
+  rewrite <- EO in H. clear EO o os.
+  destruct (chain_simple _ li _) as [t'|e] eqn:EC; [|discriminate].
+  pose proof (chain_add_voters _ _ _ _ EC) as VO. cbn in VO.
+  unfold changer_enter_joint in H.
+  destruct (check_and_return (cfg_clone (t_config t')) (t_progress t')) as [[c0 p0]|] eqn:E0; [|discriminate].
+  apply check_and_return_ok in E0. destruct E0 as (-> & -> & I0).
+  destruct (joint _); [discriminate|].
+  destruct (N.eqb (nlen _) 0); [discriminate|].
+  set (c1 := cfg_with_outgoing _ _) in H.
+  assert (HP : forall id, In id (cs_voters_outgoing cs) -> id <> 0 ->
+            smem (c_outgoing c1) id = true /\ has_progress (t_progress t') id = true).
+  { intros id Hi Hn. assert (IV : In id (c_voters (t_config t'))) by (apply VO; left; auto).
+    split; [apply smem_In; exact IV|].
+    unfold check_invariants in I0. repeat (apply andb_true_iff in I0; destruct I0 as [I0 _]).
+    rewrite forallb_forall in I0. apply I0. unfold voter_ids. apply joint_ids_In. left. exact IV. }
+  destruct (seg_remove (t_max_inflight t') (t_max_inflight_bytes t') li
+              (map (mkCCS CCAddNode) (cs_voters cs) ++ map (mkCCS CCAddLearnerNode) (cs_learners cs) ++
+               map (mkCCS CCAddLearnerNode) (cs_learners_next cs))
+              _ c1 (t_progress t') HP) as (c2 & E2 & _ & V2).
+  rewrite E2 in H. clear E2.
+  destruct (seg_add (t_max_inflight t') (t_max_inflight_bytes t') li
+              (map (mkCCS CCAddLearnerNode) (cs_learners cs) ++ map (mkCCS CCAddLearnerNode) (cs_learners_next cs))
+              (cs_voters cs) c2 (t_progress t')) as (c3 & p3 & E3 & V3).
+  rewrite E3 in H. clear E3.
+  destruct (seg_learner (t_max_inflight t') (t_max_inflight_bytes t') li
+              (map (mkCCS CCAddLearnerNode) (cs_learners_next cs)) (cs_learners cs) c3 p3) as (c4 & p4 & E4 & V4).
+  rewrite E4 in H. clear E4.
+  rewrite <- (app_nil_r (map (mkCCS CCAddLearnerNode) (cs_learners_next cs))) in H.
+  destruct (seg_learner (t_max_inflight t') (t_max_inflight_bytes t') li [] (cs_learners_next cs) c4 p4) as (c5 & p5 & E5 & V5).
+  rewrite E5 in H. clear E5.
+  cbn [cc_apply] in H. destruct (N.eqb (nlen (c_voters c5)) 0); [discriminate|].
+  apply check_and_return_ok in H. destruct H as (-> & -> & _).
+  cbn [cfg_with_auto_leave c_voters].
+  assert (Z2 : ~ In x (c_voters c2)).
+  { intros I. destruct (V2 x I) as [A B]. subst c1. cbn in A. apply VO in A. destruct A as [[A NZ]|[]]. auto. }
+  specialize (D x). specialize (V3 x). specialize (V4 x). specialize (V5 x). tauto.
+Qed.
+
+Example restore_voters_joint_somewhere :
+  match cc_restore (make_tracker 4 0) 10 (mkConfState [1;2;3] [4] [1;2;5] [5] true) with
+  | inl (c, p) => list_eqb N.eqb (c_voters c) [1;2;3] && list_eqb N.eqb (c_outgoing c) [1;2;5]
+  | inr _ => false
+  end = true.
+Proof. vm_compute. reflexivity. Qed.
